@@ -13,7 +13,7 @@ EXPLANATION = (
     "beyond RCV.NXT (circular comparison of the peeked segment's SEQ with self.rcv.nxt) or the state is SYN-SENT, and "
     "pops exactly the segment it peeked; (T-ACK-PRUNE) every write of SND.UNA is followed on every path to a "
     "non-deleting return by remove_acked_from_retransmission(SND.UNA) (LAST-ACK is the tabled exception); "
-    "(T-RETX-ARM) the timeout branch of advance_time re-arms every queued segment, every element of the "
+    "(T-APPEND) the send and receive byte streams of the TCB grow only at their end; (T-RETX-ARM) the timeout branch of advance_time re-arms every queued segment, every element of the "
     "retransmission queue is built by Transmit::new (armed), and segments() emits exactly the armed ones; "
     "(T-SYNSENT, T-WINDOW) shared with C17. Breaking any of them breaks the stream for some admissible schedule. "
     "Not decided: prefix/exactly-once/convergence themselves (schedules x byte strings need execution or a proof).")
@@ -22,7 +22,99 @@ TECHNIQUE = "static analysis: dominance / must-pass-through / data-dependence ru
 PRIMS = "elvis_core::protocols::tcp::tcb::modular_cmp::"
 
 
-def run(ctx):
+# relation "x REL y" asserted by comparator(x, y) returning true
+CMP_REL = {"mod_lt": "lt", "mod_leq": "le", "mod_gt": "gt", "mod_geq": "ge"}
+NEG = {"lt": "ge", "le": "gt", "gt": "le", "ge": "lt"}
+FLIP = {"lt": "gt", "le": "ge", "gt": "lt", "ge": "le"}
+
+
+def _una_vs_end(rel, a_is_end, b_is_end):
+    """Orient `a rel b` as `UNA rel' END`."""
+    if b_is_end and not a_is_end:
+        return rel
+    if a_is_end and not b_is_end:
+        return FLIP[rel]
+    return None
+
+
+def removal_rule(prog, rp):
+    """Entries leave outgoing.retransmit exactly on the condition SND.UNA >= SEQ + LEN. Two idioms are understood:
+    an index loop with VecDeque::remove under a comparator branch, and VecDeque::retain with a comparator closure."""
+    from .. import symx as S
+    probs = []
+    rem = [(bb, t) for bb, t in K.calls(rp) if (F.callee_key(t) or "").endswith("vec_deque::{impl#5}::remove")]
+    ret = [(bb, t) for bb, t in K.calls(rp) if (F.callee_key(t) or "").rsplit("::", 1)[-1] in ("retain", "retain_mut")]
+    if len(rem) == 1 and not ret:
+        if not dep.has_field(dep.arg_origins(rp, rem[0][0], 0), "Outgoing", "retransmit"):
+            return ["remove_acked_from_retransmission does not remove from outgoing.retransmit"]
+        rg = cfg(rp)
+        found = None
+        for s in rg.dom_chain(rem[0][0]):
+            if rp.term(s)[0] != "switch":
+                continue
+            c = dep.switch_condition(rp, s)
+            if not (c and c["kind"] == "call" and (F.callee_key(c["term"]) or "").startswith(PRIMS)):
+                continue
+            nm = (F.callee_key(c["term"]) or "").rsplit("::", 1)[-1]
+            if nm not in CMP_REL:
+                continue
+            a0 = dep.arg_origins(rp, c["call_bb"], 0)
+            a1 = dep.arg_origins(rp, c["call_bb"], 1)
+            is_end = lambda o: dep.has_field(o, "TcpHeader", "seq") and dep.has_call(o, "segment::{impl#0}::seg_len")
+            is_una = lambda o: dep.has_param(o, "snd_una") and not dep.has_field(o, "TcpHeader", "seq")
+            if not ((is_end(a0) and is_una(a1)) or (is_una(a0) and is_end(a1))):
+                continue
+            tr, fa = dep.bool_branches(rp, s)
+            on_true = rg.dominates(tr, rem[0][0]) and not rg.dominates(fa, rem[0][0])
+            on_false = rg.dominates(fa, rem[0][0]) and not rg.dominates(tr, rem[0][0])
+            if not (on_true or on_false):
+                continue
+            rel = CMP_REL[nm] if on_true else NEG[CMP_REL[nm]]
+            found = _una_vs_end(rel, is_end(a0), is_end(a1))
+        if found is None:
+            probs.append("removal is not decided by a circular comparison of SND.UNA with SEG.SEQ + SEG.LEN (a segment must stay queued until its last byte is acknowledged)")
+        elif found != "ge":
+            probs.append("a queue entry is removed when SND.UNA %s SEQ+LEN; it must be removed exactly when SND.UNA >= SEQ+LEN" % {"lt": "<", "le": "<=", "gt": ">"}[found])
+        return probs
+    if len(ret) == 1 and not rem:
+        bb, t = ret[0]
+        if not dep.has_field(dep.arg_origins(rp, bb, 0), "Outgoing", "retransmit"):
+            return ["remove_acked_from_retransmission does not prune outgoing.retransmit"]
+        kids = [k for k in prog.children(rp) if k.kind == "closure"]
+        if len(kids) != 1:
+            return ["retain() predicate of remove_acked_from_retransmission not found"]
+        cb = kids[0]
+        try:
+            f, _ex = S.extract(prog, cb)
+        except S.Unsupported as e:
+            return ["retain() predicate too complex to decide (%s)" % e]
+        neg = False
+        while f[0] == "not":
+            neg = not neg
+            f = f[1]
+        nm = f[1].rsplit("::", 1)[-1] if f[0] == "call" else None
+        if f[0] != "call" or not f[1].startswith(PRIMS) or nm not in CMP_REL:
+            return ["the retain() predicate is not a circular comparison: %s" % S.term_str(f)]
+
+        def cls(x):
+            at = {repr(a) for a, _c in S.lin(x)[0]}
+            has_seq = any("'seq'" in a for a in at)
+            has_len = any("seg_len" in a for a in at)
+            return "end" if has_seq and has_len else "seq" if has_seq else "una"
+        ca, cb_ = cls(f[2][0]), cls(f[2][1])
+        if {ca, cb_} != {"end", "una"}:
+            return ["the retain() predicate compares %s: a segment must stay queued until SND.UNA reaches SEQ + LEN (its last byte), not merely its first byte" % S.term_str(f)]
+        keep = CMP_REL[nm] if not neg else NEG[CMP_REL[nm]]
+        keep = _una_vs_end(keep, ca == "end", cb_ == "end")
+        removed = NEG[keep]
+        if removed != "ge":
+            return ["retain() drops an entry when SND.UNA %s SEQ+LEN; it must drop it exactly when SND.UNA >= SEQ+LEN" % {"lt": "<", "le": "<=", "gt": ">"}[removed]]
+        return []
+    return ["remove_acked_from_retransmission neither removes entries under a comparison nor retains by one (found %d remove, %d retain calls)" % (len(rem), len(ret))]
+
+
+def check_inorder(ctx):
+    """T-INORDER (shared with C03: a FIN is a queued segment like any other)."""
     prog = ctx.prog()
     sa = prog.method("Tcb", "segment_arrives")
     ps = prog.method("Tcb", "process_segment")
@@ -97,6 +189,13 @@ def run(ctx):
     (ctx.bad if probs else ctx.ok)("T-INORDER", "T-INORDER:segment_arrives", sa.span, "; ".join(probs) if probs else
         "process_segment only for the popped segment whose SEQ is not beyond RCV.NXT (circular) or in SYN-SENT")
 
+
+
+def run(ctx):
+    prog = ctx.prog()
+    ps = prog.method("Tcb", "process_segment")
+    check_inorder(ctx)
+
     # ---------------------------------------------------------------- T-ACK-PRUNE
     m = T.TcbModel(prog, ps)
     nw = 0
@@ -119,24 +218,36 @@ def run(ctx):
                 ctx.bad("T-ACK-PRUNE", key, st[3], "SND.UNA is advanced (state %s) but acknowledged segments are not removed from the retransmission queue on some path: they are retransmitted forever" % states)
     ctx.require(nw >= 3, "T-ACK-PRUNE: only %d writes of SND.UNA found" % nw)
     rp = prog.method("Tcb", "remove_acked_from_retransmission")
-    rem = [(bb, t) for bb, t in K.calls(rp) if (F.callee_key(t) or "").endswith("vec_deque::{impl#5}::remove")]
-    probs = []
-    if len(rem) != 1 or not dep.has_field(dep.arg_origins(rp, rem[0][0], 0), "Outgoing", "retransmit"):
-        probs.append("remove_acked_from_retransmission does not remove from outgoing.retransmit")
-    else:
-        guard = None
-        rg = cfg(rp)
-        for s in rg.dom_chain(rem[0][0]):
-            if rp.term(s)[0] == "switch":
-                c = dep.switch_condition(rp, s)
-                if c and c["kind"] == "call" and (F.callee_key(c["term"]) or "").startswith(PRIMS):
-                    a = dep.arg_origins(rp, c["call_bb"], 0) | dep.arg_origins(rp, c["call_bb"], 1)
-                    if dep.has_param(a, "snd_una") and dep.has_field(a, "TcpHeader", "seq") and dep.has_call(a, "segment::{impl#0}::seg_len"):
-                        guard = s
-        if guard is None:
-            probs.append("removal is not decided by a circular comparison of SND.UNA with SEG.SEQ + SEG.LEN")
+    probs = removal_rule(prog, rp)
     (ctx.bad if probs else ctx.ok)("T-ACK-PRUNE", "T-ACK-PRUNE:remove_acked", rp.span, "; ".join(probs) if probs else
-        "removes exactly the queue entries decided by mod_*(snd_una, seq + seg_len)")
+        "a queue entry is removed exactly when SND.UNA >= SEG.SEQ + SEG.LEN (circular): partially acknowledged segments stay queued")
+
+    # ---------------------------------------------------------------- T-APPEND
+    # the byte streams kept in the TCB grow at their end only: stream.concatenate(new), never new.concatenate(stream)
+    napp = 0
+    for b in prog.bodies.values():
+        if not b.key.startswith("elvis_core::protocols::tcp::tcb") or "::tests" in b.key:
+            continue
+        for bb, t in K.calls(b):
+            if not (F.callee_key(t) or "").endswith("message::{impl#0}::concatenate"):
+                continue
+            o0 = dep.arg_origins(b, bb, 0, through_calls=False)
+            o1 = set(dep.arg_origins(b, bb, 1, through_calls=False))
+            for a in list(o1):
+                # the whole stream moved out by value: mem::take / mem::replace / clone of the field
+                if a[0] == "call" and a[1] and a[1].rsplit("::", 1)[-1] in ("take", "replace", "clone") and isinstance(a[2], int):
+                    o1 |= set(dep.arg_origins(b, a[2], 0, through_calls=False))
+            stream = [f for f in (("Incoming", "text"), ("Outgoing", "text")) if dep.has_field(o0, f[0], f[1])]
+            rev = [f for f in (("Incoming", "text"), ("Outgoing", "text")) if dep.has_field(o1, f[0], f[1])]
+            if not stream and not rev:
+                continue
+            napp += 1
+            key = "T-APPEND:%s@%s" % (".".join((stream or rev)[0]), b.key.rsplit("::", 1)[-1])
+            if stream and not rev:
+                ctx.ok("T-APPEND", key, F.call_loc(t), "%s.%s grows at its end (stream.concatenate(new bytes))" % stream[0])
+            else:
+                ctx.bad("T-APPEND", key, F.call_loc(t), "the accumulated stream %s.%s is appended to the new bytes instead of the other way round: bytes are delivered out of order" % (rev or stream)[0])
+    ctx.require(napp >= 2, "T-APPEND: only %d stream concatenations found in the TCB" % napp)
 
     # ---------------------------------------------------------------- T-RETX-ARM
     at = prog.method("Tcb", "advance_time")
